@@ -21,6 +21,7 @@ IStep(op) ==
   CASE op.op = "Clock" -> Clock(op.now) /\ obs' = [k |-> "other"]
     [] op.op = "Ops" -> SetOps(op.name) /\ obs' = [k |-> "other"]
     [] op.op = "OpsT" -> SetOpsT(op.id) /\ obs' = [k |-> "other"]
+    [] op.op = "OpsThread" -> (IF op.name = NONE THEN UNCHANGED vars ELSE SetOps(op.name)) /\ obs' = [k |-> "other"]
     [] op.op = "Load" ->
          /\ Load(op.ring, RefItems(DocKds(op), nextId),
                  IF op.doc = "nonjson" THEN 1 ELSE IF rings[op.ring].live /\ rings[op.ring].err THEN 1 ELSE 0)
